@@ -476,7 +476,7 @@ pub fn gen_cmd(rng: &mut Rng, w: &CliWorld) -> UCmd {
 
 fn gen_world_and_cmd(seed: u64) -> (CliWorld, UCmd) {
   let mut r = Rng::stream(seed, "world");
-  let mut w = cli_world::gen_world(&mut r, &GenOpts { max_files: 8, allow_special: true, with_tests: false, fix_heavy: true, order_sensitive_rules: false, hard_links: false });
+  let mut w = cli_world::gen_world(&mut r, &GenOpts { max_files: 8, allow_special: true, with_tests: false, fix_heavy: true, order_sensitive_rules: false, hard_links: false, injections: true });
   // embedded documents are the interesting case: make them frequent
   if r.chance(0.5) {
     let n = w.files.len();
@@ -599,6 +599,9 @@ impl Simulation for C18Sim {
       r.add("probe:edits_applied_and_verified", oc.edits_applied as u64);
       r.add("probe:files_rewritten_and_verified", oc.files_changed as u64);
       r.add("probe:files_with_edits_in_several_documents", oc.multi_doc_files as u64);
+      if w.injections > 0 {
+        r.count("probe:runs_in_worlds_with_language_injections_in_sgconfig");
+      }
       r.add("probe:files_with_edits_sharing_a_start_offset", oc.tie_groups as u64);
       if oc.rounds_done >= 2 {
         r.count("probe:repeated_invocation_checked");
